@@ -37,6 +37,8 @@ Ptrs == {"", "/", "/publicKey", "/publicKey/0", "/publicKey/0/id", "/publicKey/-
          "#/public%4Bey/0", "#/%73ervice/0",
          \* a member that is not protected but sounds like the keys' name in resolved documents
          "/verificationMethod",
+         \* pointers through a member named "" (an empty reference token): not the protected members
+         "//publicKey/0", "//service",
          \* a line feed inside a reference token (pattern matching that stops at line ends)
          "/service/0/new\nmember", "/publicKey/0/a\nb"}
 
